@@ -60,7 +60,9 @@ def main():
             muts.append({"id": meta.parent.name, "props": m["checks"] if "checks" in m else [m["property"]],
                          "patch": str(meta.parent / "patch.diff")})
     else:
-        muts = json.loads((VERIF / "tools" / "mutations.json").read_text())
+        muts = []
+        for f in sorted((VERIF / "tools").glob("mutations*.json")):
+            muts += json.loads(f.read_text())
     for m in muts:
         props = [p for p in m["props"] if not ids or p in ids]
         if not props:
@@ -89,8 +91,9 @@ def main():
                 out.append({"mutation": m["id"], "property": pid, "verdict": verdict, "first": first})
         finally:
             drop_tree(tree)
-    (VERIF / "tools" / ("seeded_results.json" if seeded else "mutation_results.json")).write_text(
-        json.dumps(out, indent=1))
+    if not ids:
+        (VERIF / "tools" / ("seeded_results.json" if seeded else "mutation_results.json")).write_text(
+            json.dumps(out, indent=1))
 
 
 if __name__ == "__main__":
